@@ -67,7 +67,7 @@ def main():
             na.append({"property_id": pid, "reason": PENDING.get(pid, "monitor not built yet (work in progress, see DESIGN.md section 5)")})
     m = {
         "version": 1,
-        "setup_cmd": "./check build chk rel asan tsan",
+        "setup_cmd": "./check build chk rel asan tsan miri",
         "hooks": {
             "guard": "cargo feature verif-hooks (nucleo/verif-hooks enables nucleo-matcher/verif-hooks), off by default",
             "enable": "harness/Cargo.toml depends on /repo and /repo/matcher by path with features = [\"verif-hooks\"]; every check rebuilds with cargo from /repo's working tree",
